@@ -15,11 +15,11 @@ CLAIMED = {
          "release profile so that wraps are silent (checked profile in a second phase); Err results are always acceptable; ranges per DESIGN appendix B",
          "DESIGN.md section 3 C02"),
  "C03": ("exploration", "runtime monitor: brute-force reference selector written against the statement + store event log, over an exhaustive query grid on sampled small stores and random large stores",
-         "Every combination of address / reference (own, foreign, dangling) / min_amount per class / single-many / input-collateral is run with the real tx3_resolver::inputs::resolve against sampled stores of 0..4 UTxOs, and random queries against stores of up to 200 UTxOs with amounts up to 2^62; the bound set is checked for soundness against every stated constraint and, when the candidate set has <= 50 members and contains a covering UTxO / total, for completeness. The store's event log shows which narrowing and fetch paths ran. Held = no unsound binding and no missed match.",
+         "Every combination of address / reference (own, foreign, dangling) / min_amount per class / single-many / input-collateral is run with the real tx3_resolver::inputs::resolve against sampled stores of 0..4 UTxOs, random queries against stores of up to 200 UTxOs with amounts up to 2^62, and a 'tight' phase (1..50 candidates at the queried address among up to 80 others, threshold = exact total of the candidates or the one dominating candidate, so that losing any candidate in narrowing, window, selection or excess trimming turns a resolvable query into a failure); the bound set is checked for soundness against every stated constraint and, when the candidate set has <= 50 members and contains a covering UTxO / total, for completeness. The store's event log shows which narrowing and fetch paths ran. Held = no unsound binding and no missed match.",
          "the in-memory store implements the UtxoStore contract; min_amount entries are non-negative; multi-reference queries are checked for soundness only; default (vector) selector build",
          "DESIGN.md section 3 C03"),
  "C04": ("exploration", "runtime monitor: pairwise-disjointness check of per-block selections after inputs::resolve + duplicate / count check on the raw body input list after resolve_tx",
-         "Templates with 1..4 overlapping input blocks (same party, nested thresholds, shared references, multi-UTxO blocks, optional collateral) are resolved against stores sized below / at / above what the blocks need; selections must be pairwise disjoint, the emitted input list free of duplicates and at least as long as the number of blocks, and resolution must fail when there are fewer UTxOs than blocks. Held on every generated (template, store).",
+         "Templates with 1..4 overlapping input blocks (same party, nested thresholds, shared references, multi-UTxO blocks, optional collateral; block names drawn so that they sort on both sides of each other and of the collateral query, since blocks are visited in name order) are resolved against stores sized below / at / above what the blocks need; selections must be pairwise disjoint, the emitted input list free of duplicates and at least as long as the number of blocks, and resolution must fail when there are fewer UTxOs than blocks. Held on every generated (template, store).",
          "block names are distinct after lower-casing; collateral may overlap a regular input",
          "DESIGN.md section 3 C04"),
  "C05": ("exploration", "runtime monitor: fee-equation oracle on decoded bytes + per-round event log from a compiler wrapper (fee applied, payload length, fee reported)",
@@ -30,12 +30,12 @@ CLAIMED = {
          "For lowered generated programs, the examples and random IR trees with a parameter / query / fees node in every expression position, the names found by the walk must equal the reported ones; after apply_args / apply_fees / apply_inputs of everything reported no unresolved node of that kind may remain, after compiler ops + reduce none at all and is_constant must agree; resolve_tx with one reported argument removed must return MissingTxArg naming it. The evidence lists the (kind, position) pairs reached. Held on every IR.",
          "the walk sees exactly what Serialize sees; nodes under an applied Param::Set and queries nested in a query's own field are outside the language and not generated",
          "DESIGN.md section 3 C06"),
- "C07": ("exploration", "runtime monitor: exhaustive schedule enumeration per template (24 stage orders x 32 reduce placements) with canonical-IR and decoded-transaction equality oracle and idempotence check after every reduce",
-         "For each generated template and world all admissible schedules of {args, inputs, fees, compiler ops} with any subset of interleaved reductions are executed on the real Apply / Node / reduce API; the canonical fully reduced IR and the independently decoded compiled transaction must be the same for all of them, and reduce must be idempotent wherever it is applied. Schedules are exhaustive per template; templates are sampled. Held = one outcome per template.",
+ "C07": ("exploration", "runtime monitor: exhaustive schedule enumeration per template (24 stage orders x 32 reduce placements x arguments at once / in two instalments with a reduction in between) with canonical-IR and decoded-transaction equality oracle and idempotence check after every reduce",
+         "For each generated template (every third one built from asset atoms in which exactly one of policy / name / amount is a parameter) and world all admissible schedules of {args, inputs, fees, compiler ops} with any subset of interleaved reductions are executed on the real Apply / Node / reduce API; the canonical fully reduced IR and the independently decoded compiled transaction must be the same for all of them, and reduce must be idempotent wherever it is applied. Schedules are exhaustive per template; templates are sampled. Held = one outcome per template.",
          "admissibility is defined on stage dependencies known from the generator (compiler ops after args when a built-in reads a parameter); a fresh compiler per schedule",
          "DESIGN.md section 3 C07"),
  "C08": ("exploration", "runtime monitor: redeemer-attachment oracle (ledger-order ranks computed by the reference semantics) vs the independently decoded witness set",
-         "Generated templates with script inputs (single and multi-UTxO), mints/burns on shared and distinct policies and withdrawals, with random transaction ids / policy ids / credentials so that every relative order occurs; the decoded map (purpose tag, index) -> data must equal the map built from the source. Lost, spurious, misindexed and wrong-data redeemers have distinct signatures. Held = maps equal on every generated case.",
+         "Generated templates with script inputs (single and multi-UTxO), mints/burns on shared and distinct policies and withdrawals, with random transaction ids / policy ids / credentials so that every relative order occurs, UTxOs of one transaction id with output indices across the 1/2/4-byte boundaries, and burns that exactly cancel a mint (the policy vanishes from the mint field); the decoded map (purpose tag, index) -> data must equal the map built from the source. Lost, spurious, misindexed and wrong-data redeemers have distinct signatures. Held = maps equal on every generated case.",
          "ledger ordering of inputs (txid bytes, index), mint policies and reward accounts as implemented in the reference semantics; ambiguous mint blocks (several policies / cancelled policy with a redeemer) are counted, not judged",
          "DESIGN.md section 3 C08"),
  "C09": ("exploration", "runtime monitor: independent Plutus-Data reader (written from the CDDL) vs reference denotation; exhaustive constructor-index sweep 0..139",
@@ -46,40 +46,40 @@ CLAIMED = {
          "Constant templates from generated programs are compiled and the bytes inspected: standard decoder accepts; reported hash = digest of raw body bytes; aux-data and script-data hashes present exactly when metadata / redeemers are and equal to digests of what the payload carries; no duplicate/empty/zero entries; network id; identical bytes for same instance, fresh instance and three fresh processes. Held = all oracles satisfied on every compiled template.",
          "script integrity computed per the Alonzo rule with the cost models handed to the compiler; ledger validity beyond these structural rules (min-UTxO, script execution) is not modelled",
          "DESIGN.md section 3 C10"),
- "C11": ("exploration", "runtime monitor: canonical-form round-trip oracle over random IR trees and lowered programs; hostile-bytes totality monitor with panic hook, signal and watchdog observers",
-         "Random IR trees covering every Expression/Param/BuiltInOp/CompilerOp/Coerce variant, all lowered example and generated programs are encoded and decoded and compared in canonical form (plus find_params/find_queries and the compiled transaction after identical application); 12 kinds of hostile byte strings and a list of version strings must yield Ok/Err without panic, abort or hang. Held = no difference and no crash on anything generated.",
-         "equality is equality of the canonicalised Serialize output; a field hidden from Serialize would be invisible; hang = wall-clock watchdog reproduced alone with 3x budget",
+ "C11": ("exploration", "runtime monitor: round-trip oracle on two independent views (canonicalised Serialize output and a field-by-field structural view) over random IR trees and lowered programs; hostile-bytes totality monitor with panic hook, signal and watchdog observers, nested payloads decoded on a 2 MiB thread and by an unoptimised stack-probe binary; Miri cross-run in the thorough tier",
+         "Random IR trees covering every Expression/Param/BuiltInOp/CompilerOp/Coerce variant, all lowered example and generated programs are encoded and decoded and compared in canonical form and field by field through the model's public fields (plus find_params/find_queries and the compiled transaction after identical application); 13 kinds of hostile byte strings (incl. 11 expression wrappers nested 50..100000 deep in a typed position, decoded on a 2 MiB thread and once more by a dev-profile probe binary) and a list of version strings must yield Ok/Err without panic, abort or hang; the thorough tier repeats a few hundred operations under the Miri interpreter. Held = no difference and no crash on anything generated.",
+         "the structural view reads public fields only (a private field added later would be invisible); stack sufficiency is judged on Rust's default 2 MiB thread stack in the optimised harness and in an unoptimised probe; hang = wall-clock watchdog reproduced alone with 3x budget",
          "DESIGN.md section 3 C11"),
- "C12": ("exploration", "runtime monitor: totality oracle (panic hook, worker signals, watchdog) + logical step budget on the parser (pest call limit) + CPU-time growth probe, over grammar-derived inputs, token mutations and exhaustive nesting sweeps",
-         "Inputs derived from tx3.pest itself (read at run time), 12 token-level mutators over the examples and generated programs, 30 recursive constructs at every nesting depth 1..64 and 7 families of linearly growing definition chains are parsed and analysed in worker subprocesses; every call must return, the parser within a step budget three orders of magnitude above linear behaviour, and CPU time must not grow exponentially with program length. Held = no panic / abort / budget overrun apart from the listed known finding.",
+ "C12": ("exploration", "runtime monitor: totality oracle (panic hook, worker signals, watchdog) + logical step budget on the parser (pest call limit) + CPU-time growth probe, over grammar-derived inputs, token mutations and exhaustive nesting sweeps; Miri cross-run in the thorough tier",
+         "Inputs derived from tx3.pest itself (read at run time), 12 token-level mutators over the examples and generated programs, 30 recursive constructs at every nesting depth 1..64 and 7 families of linearly growing definition chains are parsed and analysed in worker subprocesses; every call must return, the parser within a step budget three orders of magnitude above linear behaviour, and CPU time must not grow exponentially with program length; the thorough tier repeats a few hundred operations under the Miri interpreter. Held = no panic / abort / budget overrun apart from the listed known finding.",
          "termination of analyze is observed by watchdog and growth probe only (it has no step counter); memory is capped at 6 GiB per worker",
          "DESIGN.md section 3 C12"),
  "C13": ("exploration", "runtime monitor: implication oracle (analyze reports nothing => lower succeeds, facade returns Ok) over semantic mutants of valid generated programs, with panic hook and CPU-time growth probe",
-         "Valid generated programs are put through ~40 kinds of semantic mutation on the generator's own tree (plus token-level mutations) and fed to the real parse / analyze / lower and to Workspace::{parse, analyze, lower}; whenever the analyzer reports no error every tx must lower and the facade must return Ok without panicking. Which mutants the analyzer rejects or accepts is counted per mutator in the evidence. Held apart from the listed known findings (reference cycles, local chains >= 9, odd hex literals, exponential alias chains).",
+         "Valid generated programs are put through ~45 kinds of semantic mutation on the generator's own tree (plus token-level mutations; incl. a list index that is a bare name of the wrong kind - the constructor's own field, a type, party, asset, policy, case or function name - inside constructors in every block kind) and fed to the real parse / analyze / lower and to Workspace::{parse, analyze, lower}; whenever the analyzer reports no error every tx must lower and the facade must return Ok without panicking. Which mutants the analyzer rejects or accepts is counted per mutator in the evidence. Held apart from the listed known findings (reference cycles, local chains >= 9, odd hex literals, exponential alias chains).",
          "only the implication is judged; the cause labels reference-cycle / local-chain>=9 come from the harness' own inspection of the mutant",
          "DESIGN.md section 3 C13"),
  "C14": ("exploration", "runtime monitor: totality oracle (panic hook with in-repo frame extraction, worker signal exits, per-case watchdog) over every public back-end entry point, checked (overflow-checks + debug-assertions) and release profiles",
-         "Lowered generator templates with type-correct but hostile arguments, stores and protocol parameters, and random well-formed IR trees a client could send, are pushed through find_params, find_queries, is_constant, apply_args, apply_fees, Node::apply(compiler), reduce, apply_inputs, compile, inputs::resolve and resolve_tx in worker subprocesses; every call must return Ok or Err. Held = no panic, abort or reproducible overrun on any driven call.",
+         "Lowered generator templates with type-correct but hostile arguments, stores and protocol parameters, and random well-formed IR trees a client could send (incl. built-ins over constant operands of every near-miss shape: asset lists whose amount / policy / name is a constant of the wrong kind, duplicate classes that overflow when merged, extreme integers), are pushed through find_params, find_queries, is_constant, apply_args, apply_fees, Node::apply(compiler), reduce, apply_inputs, compile, inputs::resolve and resolve_tx in worker subprocesses; every call must return Ok or Err. Held = no panic, abort or reproducible overrun on any driven call.",
          "arguments are type-correct in the property's sense; stores follow the trait contract and hold amounts below 2^80 in magnitude; nothing is asserted about which of Ok/Err comes back",
          "DESIGN.md section 3 C14"),
- "C19": ("exploration", "runtime monitor: span-inside-text invariant checked on every diagnostic produced by erroneous inputs, plus rendering through miette's graphical handler",
-         "Grammar expansions, token mutants and semantic mutants (multi-line layouts with multi-byte comments, so that errors fall on every line / column class) are parsed and analysed; every parse error must have start <= end <= len(carried text) on char boundaries and render with a snippet, every analysis error with a real span must lie within the input on char boundaries and, for not-in-scope errors, locate exactly the reported name. Held on every diagnostic observed.",
+ "C19": ("exploration", "runtime monitor: span-inside-text invariant checked on every diagnostic produced by erroneous inputs, plus rendering through miette's graphical handler; Miri cross-run in the thorough tier",
+         "Grammar expansions, token mutants and semantic mutants (multi-line layouts with multi-byte comments, so that errors fall on every line / column class) are parsed and analysed; every parse error must have start <= end <= len(carried text) on char boundaries and render with a snippet, every analysis error with a real span must lie within the input on char boundaries and, for not-in-scope errors, locate exactly the reported name; the thorough tier repeats a few hundred operations under the Miri interpreter. Held on every diagnostic observed.",
          "dummy spans are skipped; the harness' own 'call limit reached' error is not a diagnostic of the code under test",
          "DESIGN.md section 3 C19"),
  "C20": ("exploration", "runtime monitor: differential oracle between a used and a fresh compiler instance over generated call histories",
-         "Histories of 0..4 earlier resolutions (succeeding and failing, with and without min_utxo, 1..6 outputs) are replayed on one compiler instance before a target is resolved; the outcome (bytes, hash, fee / error kind / panic site) must equal that of a fresh identically configured instance. Held on every generated (history, target).",
+         "Histories of 0..4 earlier resolutions (succeeding and failing, with and without min_utxo, 1..6 outputs) are replayed on one compiler instance before a target is resolved (min_utxo on random outputs, an optional output that is dropped from the body in a third of the cases, balances placed at the binary-searched minimum a fresh instance needs +- small offsets, coins_per_utxo_byte over 1..40000 incl. 289..291); the outcome (bytes, hash, fee / error kind / panic site) must equal that of a fresh identically configured instance. Held on every generated (history, target).",
          "same single-UTxO store for both runs so that hash order cannot differ; latest_tx_body is the only state the instance carries",
          "DESIGN.md section 3 C20"),
  "C16": ("exploration", "runtime monitor: encoder/decoder inversion oracle over generated values x admissible encodings, refusal oracle over ill-formed shapes, panic hook around from_json / parse_resolve_request, and a reference subset-map for request assembly",
-         "For every argument type a random value is rendered in each documented JSON encoding and from_json must return exactly that value; listed ill-formed shapes must be refused; random JSON against every type and random / corrupted resolve requests (10 envelope corruptions, parameters split between args and env, undeclared extras) must return Ok or Err, and on Ok the argument map must equal the declared subset of args + env coerced by the declared types. Held = no miscoercion, acceptance of an ill-formed value, dropped / extra key or panic on any generated document.",
+         "For every argument type a random value is rendered in each documented JSON encoding and from_json must return exactly that value; listed ill-formed shapes must be refused; random JSON against every type and random / corrupted resolve requests (10 envelope corruptions, parameters split between args and env, undeclared extras) must return Ok or Err, and on Ok the argument map must equal the declared subset of args + env coerced by the declared types; one request in five carries an ill-formed value for a declared parameter (under args or env) and must be refused; the thorough tier repeats a few hundred operations under the Miri interpreter. Held = no miscoercion, acceptance of an ill-formed value, dropped / extra key or panic on any generated document.",
          "values are sampled (i128 boundary set, byte strings up to 100 bytes, all Shelley address kinds); a key is never placed in both args and env; transaction-id length is not policed because the statement does not",
          "DESIGN.md section 3 C16"),
  "C17": ("exploration", "runtime monitor: the real tx3c binary is run per generated program; the emitted TII is read back and confronted with find_params of the decoded embedded IR (name-agreement oracle), with lower() computed in-process (canonical equality), and with a request assembled from exactly the declared keys (closure oracle through parse_resolve_request + apply_args)",
          "Generated programs with parameters, env vars and parties re-spelled in lower / UPPER / mixed case, unused declarations, policies of every form, optional profile flags and dotfiles, and (collision phase) two declared names made equal up to case are compiled by the real CLI; for every tx the embedded envelope must decode to the lowered IR, every key the IR requires must be declared under the identical spelling in exactly one section with no other declared key equal to it up to case, and a client supplying precisely the declared keys (typed by the declared schemas) must get every required key through parse_resolve_request with its value and close all value parameters. Held = no spelling / undeclared / collision / closure disagreement on any emitted file.",
          "a program accepted in-process but refused by tx3c is inconclusive (no file to judge); parameters of record / list / map type are not supplied; a parameter shadowing an env var of the same spelling is judged by the closure oracle only",
          "DESIGN.md section 3 C17"),
- "C18": ("exploration", "runtime monitor: offline checker over recorded histories of artifacts - the set of distinct byte strings per (source, tx) over 20 in-process repetitions, 3 fresh processes (new hash seeds) and 3 runs of the real tx3c binary must be a singleton; differences are located by a parallel walk of the two CBOR / JSON documents",
-         "All example programs of the repository and generated programs weighted towards chain-specific directives with several fields are parsed, analysed, lowered and encoded 20 times in one process and once in each of 3 fresh processes, and their TII file is produced 3 times by the real CLI (distinct output paths, one run from a copy in another directory, 0-2 profile flags, optional dotfile, some histories spanning more than a second); every artifact must be one byte string. Held = singleton sets on every history.",
+ "C18": ("exploration", "runtime monitor: offline checker over recorded histories of artifacts - the set of distinct byte strings per (source, tx) over 20 in-process repetitions, 3 fresh processes (new hash seeds), 3 runs of the real tx3c binary and a random history of Workspace facade operations must be a singleton; differences are located by a parallel walk of the two CBOR / JSON documents",
+         "All example programs of the repository and generated programs weighted towards chain-specific directives with several fields are parsed, analysed, lowered and encoded 20 times in one process and once in each of 3 fresh processes, and their TII file is produced 3 times by the real CLI (distinct output paths, one run from a copy in another directory, 0-2 profile flags, optional dotfile, some histories spanning more than a second); every artifact must be one byte string; on one Workspace a random history of parse / analyze / lower / ensure_tir / apply_args(type-correct arguments) followed by lower() must give, per tx, the bytes of a fresh pass. Held = singleton sets on every history.",
          "hash seeds are sampled (20 maps per process + 3 processes), not enumerated: an order-dependent encoding of a map with k entries escapes one comparison with probability about 1/k!; machine-dependent inputs other than path, time and hash seeds (locale, environment variables) are not varied",
          "DESIGN.md section 3 C18"),
  "C15": ("exploration", "runtime monitor: algebraic-law oracle + BigInt-style reference map over exhaustive small space and random values",
